@@ -253,6 +253,9 @@ type c03Holder struct {
 	ep    int
 	allow bool // charged to the allow-listed system/transient pair
 	peer  int  // connection: attached peer or -1; stream: its peer
+	// nowhere: only set while the shape of the open known finding (a refused SetPeer leaving the connection charged
+	// to no scope) is examined for ADDITIONAL damage: the holder is then counted in no scope at all
+	nowhere bool
 
 	// stream
 	proto int // -1: none
@@ -394,6 +397,9 @@ func (m *c03Model) usages() map[string]*c03Use {
 				continue
 			}
 			d := h.res()
+			if h.nowhere {
+				continue
+			}
 			for _, s := range m.charged(h) {
 				add(s, d)
 			}
